@@ -13,8 +13,10 @@ class LimitedStringIO(StringIO):
         self,
         limit: int,
         initial_value: Optional[str] = None,
-        newline: Optional[str] = None,
+        newline: Optional[str] = "\n",
     ) -> None:
+        # Same default as the plain `StringIO()` that is used when there is no
+        # output limit: "\r\n" and "\r" are not translated to "\n".
         super().__init__(initial_value, newline)
         self.limit = limit
         self.size = 0
